@@ -1385,13 +1385,14 @@ func Prop() *core.Prop {
 	return &core.Prop{
 		ID:    "C01",
 		Level: core.Exploration,
-		Rule:  "each case configures 2-6 instrumented xmpp.StreamFeature values (PRNG masks over Secure/Authn, mandatory or voluntary, restarting or not, informational or negotiable, optional STARTTLS namespace, bind-like Ready, failing) and an initial state {0,Secure,Secure|Authn} x {c2s,s2s} x {TCP via xmpp.NewNegotiator, WebSocket via websocket.Negotiator}; even indexes run xmpp.NewSession four times against a scripted peer that advertises PRNG lists (subsets, orders, unknown, duplicate, ineligible, empty), odd indexes run xmpp.ReceiveSession against a peer sending fresh, unadvertised, repeated, informational, unknown and IQ-wrapped selections. 40% of the cases are groups of 2-4 sessions that share ONE Negotiator value and ONE []StreamFeature slice (sequentially, a quarter of them overlapping on goroutines; no race detector), a quarter of the cases set StreamConfig.TeeIn/TeeOut, restarting features may return a wrapper of their own around session.Conn() (which makes the negotiator re-install the tee), voluntary non-restarting features may carry Ready in their mask next to a mandatory feature, and 1/8 of the initiator cases are shaped tee + real-shaped STARTTLS + voluntary wrapping feature. Rules 1-8 of DESIGN.md 5/C01 are checked in the callbacks, on every write of the library and at constructor return. distinct = (role, framing, c2s/s2s, initial state, #features, #lists, #negotiations, #restarts, forced STARTTLS, refusal category, outcome).",
+		Rule:  "each case configures 2-6 instrumented xmpp.StreamFeature values (PRNG masks over Secure/Authn, mandatory or voluntary, restarting or not, informational or negotiable, optional STARTTLS namespace, bind-like Ready, failing) and an initial state {0,Secure,Authn,Secure|Authn} x {c2s,s2s} x {TCP via xmpp.NewNegotiator, WebSocket via websocket.Negotiator}; even indexes run xmpp.NewSession four times against a scripted peer that advertises PRNG lists (subsets, orders, unknown, duplicate, ineligible, empty), odd indexes run xmpp.ReceiveSession against a peer sending fresh, unadvertised, repeated, informational, unknown and IQ-wrapped selections. 40% of the cases are groups of 2-4 sessions that share ONE Negotiator value and ONE []StreamFeature slice (sequentially, a quarter of them overlapping on goroutines; no race detector), a quarter of the cases set StreamConfig.TeeIn/TeeOut, restarting features may return a wrapper of their own around session.Conn() (which makes the negotiator re-install the tee), voluntary non-restarting features may carry Ready in their mask next to a mandatory feature, and 1/8 of the initiator cases are shaped tee + real-shaped STARTTLS + voluntary wrapping feature. Rules 1-8 of DESIGN.md 5/C01 are checked in the callbacks, on every write of the library and at constructor return. distinct = (role, framing, c2s/s2s, initial state, #features, #lists, #negotiations, #restarts, forced STARTTLS, refusal category, outcome).",
 		Assumptions: []string{
 			"a feature is identified by its namespace (the library's caches are keyed that way); configured features have distinct namespaces and non-empty local names",
 			"Parse consumes its element and Negotiate on the receiving side consumes the selection element, as the built-in features do; callbacks do no other wire I/O",
 			"eligibility (rules 1, 4, 7, 8) is judged against Session.State() OR-ed with the monitor's own model of the state (initial state plus every mask returned by a successful Negotiate callback); State() lacking a model bit is itself reported (rule 5, stale-state)",
 			"rule 2 accepts any features list of the current stream as the advertisement; rule 7 counts a mandatory feature as pending only if it was eligible when advertised and still is at constructor return",
 			"rule 2, other direction: when a negotiable STARTTLS-namespace feature is configured and eligible, the session is not secure and the first features list of the session does not advertise it, Negotiate of that feature must be the next callback (peer headers before a first list are always valid, so nothing can legitimately fail in between); on any later list such an attempt is a rule-2 violation",
+			"rule 6 also demands that a session is not reported established between a restart-requesting Negotiate and the fresh header, unless some Negotiate of that session put Ready into its own mask (the library takes a feature's Ready at its word)",
 			"an early-ready voluntary feature reports Ready only when at most one mandatory and no voluntary restarting feature of the library's cache is un-negotiated and the call is not the forced STARTTLS attempt, so the library can still reach the mandatory feature in the same list",
 			"a bind-like feature reports Ready only when no other mandatory feature of the latest list is pending, so an early Ready is never the feature's own doing",
 		},
